@@ -13,6 +13,7 @@ INST = {
 # unit name -> (template, inst)
 UNITS = {
     "drv": ("units/drv.rs", None),
+    "final": ("units/final.rs", None),
     "feat.of64": ("units/feat.rs", "of64"),
     "feat.f64": ("units/feat.rs", "f64"),
 }
@@ -43,6 +44,12 @@ PLAN["C15"] = dict(
     not_covered=["String/&str IsNone and Cast (unbounded strings)", "u8/isize/bool have no Number impl: vabs clause not applicable"],
     assumptions=["A-TOOLS"],
     trusted=["kani 0.68 / cbmc 6.11", "rustc"],
+)
+
+PLAN["C20"] = dict(
+    verus=dict(quick=["final"], thorough=["final"]),
+    kani=dict(quick=[], thorough=[]),
+    level="proof",
 )
 
 NOT_APPLICABLE = {}
